@@ -8,7 +8,8 @@
    [wf_pair], [documented_b], [documented_default] are the hand-written Spec (Spec/WellFormed.v). *)
 From Coq Require Import List Bool ZArith QArith String Lia.
 From Pandora Require Import Model.Json Model.Checker Model.DatasetCheck Model.InputCheck Model.InputInst
-  Spec.WellFormed Proofs.DatasetCheckP Proofs.InputCheckP Gen.Schemas Gen.InputFlow.
+  Model.CheckPrims Spec.WellFormed Proofs.DatasetCheckP Proofs.InputCheckP Proofs.CheckGenP Gen.Schemas Gen.InputFlow.
+From Pandora Require Gen.CheckFns.
 Import ListNotations.
 Open Scope string_scope.
 
@@ -237,6 +238,93 @@ Proof.
   cbv. lia.
 Qed.
 
+(* ===================================================================== the code itself (T-gen) *)
+
+(* [Gen.CheckFns.*] are the nine check functions of pandora/check_configuration.py translated
+   statement by statement (translator/gen_check_fns.py, regenerated at every run) over the named
+   primitives of Model/CheckPrims.v.  PER-RUN OBLIGATIONS: each computes what the hand-written model
+   computes, for ALL inputs -- for every dataset that is a mapping ([py_dataset]: variable names are
+   unique), every configuration value, every file system of rasters ([rfile]: width, height, the
+   samples of every band; the model's oracle is its abstraction [finfo_of], whose bit "band 1 > band 2
+   somewhere" is np_any (np_gt band1 band2)). *)
+Theorem C17_gen_check_dataset_eq : forall ds, py_dataset ds ->
+  Gen.CheckFns.check_dataset ds = check_dataset mandatory_attributes ds.
+Proof. exact gen_check_dataset_eq. Qed.
+
+Theorem C17_gen_check_datasets_eq : forall l r, py_dataset l -> py_dataset r ->
+  Gen.CheckFns.check_datasets l r = pandora_check_datasets l r.
+Proof. exact gen_check_datasets_eq. Qed.
+
+(* the helpers, each on its own: check_shape of a variable of the dataset against the image,
+   check_attributes, check_band_names, check_disparities_from_dataset *)
+Theorem C17_gen_dataset_helpers_eq :
+  (forall ds im k a, py_dataset ds -> ds_im ds = Some im -> In (k, a) (ds_table ds) ->
+     Gen.CheckFns.check_shape ds "im" k =
+     if shape_eqb (last2 (im_shape im)) (last2 (da_shape a)) then Ok tt else Raise EValue) /\
+  (forall ds m, Gen.CheckFns.check_attributes ds m = check_attributes m ds) /\
+  (forall ds, Gen.CheckFns.check_band_names ds = check_band_names ds) /\
+  (forall d, Gen.CheckFns.check_disparities_from_dataset d = check_disparities_from_dataset d).
+Proof.
+  split; [exact gen_check_shape_eq|]. split; [exact gen_check_attributes_eq|].
+  split; [exact gen_check_band_names_eq | exact gen_check_disparities_from_dataset_eq].
+Qed.
+
+Theorem C17_gen_check_disparities_from_input_eq : forall fs disp img,
+  Gen.CheckFns.check_disparities_from_input fs disp img = check_disparities_from_input (abs_fs fs) disp img.
+Proof. exact gen_check_disparities_from_input_eq. Qed.
+
+Theorem C17_gen_check_images_eq : forall fs inp,
+  Gen.CheckFns.check_images fs inp = check_images (abs_fs fs) images_checked inp.
+Proof. exact gen_check_images_eq. Qed.
+
+Theorem C17_gen_check_image_dimension_eq : forall a b,
+  Gen.CheckFns.check_image_dimension a b = check_image_dimension (finfo_of a) (finfo_of b).
+Proof. exact gen_check_image_dimension_eq. Qed.
+
+(* the "custom checking" of check_input_section (the statements between checker.validate(cfg) and
+   return cfg, regenerated: which check is called on which values of the completed configuration, in
+   which order) = the tail of the hand-written model of check_input_section *)
+Theorem C17_gen_check_input_section_custom_eq : forall fs cfg,
+  Gen.CheckFns.check_input_section_custom fs cfg = model_custom (abs_fs fs) images_checked cfg.
+Proof. exact gen_check_input_section_custom_eq. Qed.
+
+(* ... and the hand-written model of check_input_section after update_conf is its validation part
+   followed by that tail *)
+Theorem C17_check_completed_is_validation_then_custom : forall fs cfg,
+  pandora_check_completed fs cfg =
+  check_completed_with (orc fs) gen_schemas (model_custom fs images_checked) cfg.
+Proof. intros fs cfg. exact (check_completed_is_with fs gen_schemas images_checked cfg). Qed.
+
+(* ACCEPTED IFF WELL-FORMED, on the regenerated check_datasets *)
+Theorem C17_gen_check_datasets_iff_wellformed : forall l r,
+  py_dataset l -> py_dataset r -> labels_distinct l -> labels_distinct r ->
+  (Gen.CheckFns.check_datasets l r = Ok tt <-> wf_pair false l r).
+Proof. intros l r Pl Pr Ll Lr. exact (gen_check_datasets_iff l r Pl Pr Ll Lr C17_mandatory_attributes_match). Qed.
+
+(* D9, on the regenerated check_disparities_from_input *)
+Theorem C17_gen_interval_length_checked : forall fs xs img,
+  List.length xs <> 2%nat -> is_ok (Gen.CheckFns.check_disparities_from_input fs (JList xs) img) = false.
+Proof. exact gen_interval_length_checked. Qed.
+
+(* ACCEPTED IFF DOCUMENTED, with the custom checking of check_input_section regenerated
+   ([gen_check_completed]: the validation part of Model/InputCheck.v check_completed -- schema selection
+   and json-checker validation against the regenerated schemas -- followed by
+   Gen.CheckFns.check_input_section_custom, i.e. the regenerated check_disparities_from_input left and
+   right and the regenerated check_images), for every configuration value and every file system of
+   rasters; "min <= max" of a documented grid is read on the samples ([C17_grid_order_on_samples]) *)
+Theorem C17_gen_check_completed_iff_documented : forall fs cfg,
+  interval_bool_free cfg = true ->
+  is_ok (gen_check_completed fs cfg) = documented_b (abs_fs fs) cfg.
+Proof. exact gen_check_completed_iff_documented. Qed.
+
+(* what the oracle bit of a 2-band grid says about the samples: band 1 exceeds band 2 at some pixel
+   (numpy comparison on the samples as stored: a NaN sample never exceeds and is never exceeded) *)
+Theorem C17_grid_order_on_samples : forall f b1 b2 rest,
+  rf_bands f = b1 :: b2 :: rest -> List.length b1 = List.length b2 ->
+  (f_gt (finfo_of f) = true <->
+   exists i x y, nth_error b1 i = Some (Some x) /\ nth_error b2 i = Some (Some y) /\ ~ (x <= y)%Q).
+Proof. exact finfo_gt_spec. Qed.
+
 (* ===================================================================== non-vacuity *)
 
 Definition good_ds (with_disp : bool) : dataset :=
@@ -287,6 +375,30 @@ Example C17_bool_interval_observation :
   /\ interval_bool_free cfg = false.
 Proof. repeat split; vm_compute; reflexivity. Qed.
 
+(* the generated functions on concrete inputs: the well-formed pair above is a mapping and is accepted;
+   a 2-band grid whose band 1 exceeds band 2 at one pixel is refused with ValueError, the same grid with
+   that pixel NaN is accepted; an off-grid extra variable is refused whatever its name *)
+Definition rasters (bad : cell) (p : string) : option rfile :=
+  if String.eqb p "l.tif" then Some (mkRfile 2 2 [[Some 1%Q; Some 2%Q; None; Some 4%Q]])
+  else if String.eqb p "g.tif" then Some (mkRfile 2 2 [[Some (-2)%Q; Some (-2)%Q; bad; Some 0%Q];
+                                                       [Some 2%Q; Some 2%Q; Some 2%Q; Some 0%Q]])
+  else None.
+
+Example C17_example_generated :
+  py_dataset (good_ds true) /\ py_dataset (good_ds false)
+  /\ Gen.CheckFns.check_datasets (good_ds true) (good_ds false) = Ok tt
+  /\ Gen.CheckFns.check_dataset
+       (mkDs (ds_im (good_ds false)) None None [("zz", [4; 6]%Z)] (ds_attrs (good_ds false))) = Raise EValue
+  /\ Gen.CheckFns.check_disparities_from_input (rasters (Some 3%Q)) (JStr "g.tif") (JStr "l.tif") = Raise EValue
+  /\ Gen.CheckFns.check_disparities_from_input (rasters None) (JStr "g.tif") (JStr "l.tif") = Ok tt
+  /\ Gen.CheckFns.check_disparities_from_input (rasters None) (JList [JInt 2; JInt (-2)]) (JStr "l.tif") = Raise EValue.
+Proof.
+  assert (P : forall b, py_dataset (good_ds b)).
+  { intro b. unfold py_dataset. cbn. split; [repeat constructor; cbn; intuition discriminate|].
+    split; intuition discriminate. }
+  split; [apply P|]. split; [apply P|]. repeat split; vm_compute; reflexivity.
+Qed.
+
 Print Assumptions C17_mandatory_attributes_match.
 Print Assumptions C17_check_datasets_iff_wellformed.
 Print Assumptions C17_check_datasets_iff_wellformed_numbers.
@@ -305,3 +417,15 @@ Print Assumptions C17_only_input_key_matters.
 Print Assumptions C17_no_input_refused.
 Print Assumptions C17_refusal_before_matching.
 Print Assumptions C17_input_checked_first.
+Print Assumptions C17_gen_check_dataset_eq.
+Print Assumptions C17_gen_check_datasets_eq.
+Print Assumptions C17_gen_dataset_helpers_eq.
+Print Assumptions C17_gen_check_disparities_from_input_eq.
+Print Assumptions C17_gen_check_images_eq.
+Print Assumptions C17_gen_check_image_dimension_eq.
+Print Assumptions C17_gen_check_input_section_custom_eq.
+Print Assumptions C17_check_completed_is_validation_then_custom.
+Print Assumptions C17_gen_check_datasets_iff_wellformed.
+Print Assumptions C17_gen_interval_length_checked.
+Print Assumptions C17_gen_check_completed_iff_documented.
+Print Assumptions C17_grid_order_on_samples.
